@@ -294,6 +294,8 @@ def from_tk(tk_circuit):
         for gate in GATES:
             if name == gate.name:
                 return gate
+            if name == gate.name + "dg":  # Sdg, Tdg as exported by to_tk
+                return gate.dagger()
         raise NotImplementedError
 
     def make_units_adjacent(tk_gate):
